@@ -22,7 +22,7 @@ theorem subcall_tm (C : Crypto) (cx : ICtx) (dst : Bytes) (f : String) (e : Nat)
     ∃ w1 out w2, World.pay t.w cx.self dst e es = some w1 ∧
       TokenManager.call (t.w.tms dst) ⟨cx.self, dst, t.w.now, e, es⟩ f args = .ok out ∧
       applyEffects { w1 with tms := upd w1.tms dst out.st } dst out.effects = some w2 ∧
-      t'.w.accts = w2.accts ∧ rs = out.results := by
+      t'.w.accts = w2.accts ∧ rs = out.results ∧ t'.w.kind = t.w.kind := by
   unfold subcall at h
   cases hp : World.pay t.w cx.self dst e es with
   | none => simp [hp] at h
@@ -46,10 +46,13 @@ theorem subcall_tm (C : Crypto) (cx : ICtx) (dst : Bytes) (f : String) (e : Nat)
         split at hc
         · cases hc
         · rename_i w3 he
+          have hk3 : w3.kind = t.w.kind := by
+            rw [(applyEffects_bal _ _ _ _ he).kind]
+            first | rfl | exact hb.kind
           refine ⟨w1, out, w3, rfl, hcall, he, ?_⟩
           split at hc
-          · cases hc; exact ⟨rfl, rfl⟩
-          · cases hc; exact ⟨rfl, rfl⟩
+          · cases hc; exact ⟨rfl, rfl, hk3⟩
+          · cases hc; exact ⟨rfl, rfl, hk3⟩
       · cases hc
 
 /-- a synchronous call to the gateway moves nothing -/
@@ -130,7 +133,7 @@ theorem tmGiveToken_led (C : Crypto) (cx : ICtx) (tid dest : Bytes) (amount : Na
     | some x =>
       obtain ⟨rs, tt⟩ := x
       simp only [hs] at h
-      obtain ⟨w1, out, w2, hp, hcall, heff, hacc, hrs⟩ := subcall_tm C cx _ _ _ _ _ t tt rs hk hs
+      obtain ⟨w1, out, w2, hp, hcall, heff, hacc, hrs, _⟩ := subcall_tm C cx _ _ _ _ _ t tt rs hk hs
       -- the dispatcher reaches `giveToken` with the decoded arguments
       have hcall2 : ∃ d, topFixed 32 dest = some d ∧
           TokenManager.giveToken (t.w.tms (t.w.its.tmAddress tid)) ⟨cx.self, t.w.its.tmAddress tid, t.w.now, 0, []⟩ d
@@ -261,7 +264,7 @@ theorem tmTakeToken_led (C : Crypto) (cx : ICtx) (tid : Bytes) (tok : Its.Tok) (
     (hk : t.w.kind tm = some .tokenManager)
     (h : tmTakeToken C cx tid tok amount t = some ((), t1)) :
     cx.self = st.service ∧ tok = TokenManager.tokOfBytes st.tokenIdentifier ∧
-    Led t.w t1.w (pt cx.self tok amount) (takeIn st tm amount) := by
+    Led t.w t1.w (pt cx.self tok amount) (takeIn st tm amount) ∧ t1.w.kind = t.w.kind := by
   subst htm
   subst hst
   simp only [tmTakeToken, run_bind, deployedTokenManager_run] at h
@@ -274,14 +277,14 @@ theorem tmTakeToken_led (C : Crypto) (cx : ICtx) (tid : Bytes) (tok : Its.Tok) (
       obtain ⟨rs, tt⟩ := x
       simp only [hs, run_pure, Option.some.injEq, Prod.mk.injEq, true_and] at h
       subst h
-      obtain ⟨w1, out, w2, hp, hcall, heff, hacc, _⟩ := subcall_tm C cx _ _ _ _ _ t tt rs hk hs
+      obtain ⟨w1, out, w2, hp, hcall, heff, hacc, _, hkind'⟩ := subcall_tm C cx _ _ _ _ _ t tt rs hk hs
       have hcall2 : TokenManager.takeToken (t.w.tms (t.w.its.tmAddress tid))
           ⟨cx.self, t.w.its.tmAddress tid, t.w.now, (payOf tok amount).1, (payOf tok amount).2⟩ = .ok out := by
         unfold TokenManager.call at hcall
         exact hcall
       obtain ⟨hcaller, _, tok', amt', hreq, _, _, hshape⟩ := TokenManager.takeToken_spec _ _ _ hcall2
       obtain ⟨rfl, rfl, htok⟩ := requireCorrectToken_payOf _ _ _ _ _ _ _ _ hreq
-      refine ⟨hcaller, htok, ?_⟩
+      refine ⟨hcaller, htok, ?_, hkind'⟩
       have hl0 := led_pay_payOf _ _ _ _ _ _ hp
       have e0 : Led w1 { w1 with tms := upd w1.tms (t.w.its.tmAddress tid) out.st } nil nil := Led.of_accts rfl
       have hfin : Led w2 tt.w nil nil := Led.of_accts hacc
@@ -299,5 +302,214 @@ theorem tmTakeToken_led (C : Crypto) (cx : ICtx) (tid : Bytes) (tok : Its.Tok) (
         intro x k
         simp only [plus, nil, takeIn, hkind, Bool.false_eq_true, if_false, ← htok]
         omega
+
+end Axelar.ItsW
+
+namespace Axelar.ItsW
+open Axelar Codec Its World
+
+/-- only the gateway's state differs -/
+def GwOnly (w w' : World) : Prop := w' = { w with gw := w'.gw }
+
+theorem GwOnly.tms {w w' : World} (h : GwOnly w w') : w'.tms = w.tms := by rw [h]
+theorem GwOnly.kind {w w' : World} (h : GwOnly w w') : w'.kind = w.kind := by rw [h]
+theorem GwOnly.its {w w' : World} (h : GwOnly w w') : w'.its = w.its := by rw [h]
+theorem GwOnly.accts {w w' : World} (h : GwOnly w w') : w'.accts = w.accts := by rw [h]
+theorem GwOnly.now {w w' : World} (h : GwOnly w w') : w'.now = w.now := by rw [h]
+theorem GwOnly.mintRole {w w' : World} (h : GwOnly w w') : w'.mintRole = w.mintRole := by rw [h]
+theorem GwOnly.burnRole {w w' : World} (h : GwOnly w w') : w'.burnRole = w.burnRole := by rw [h]
+theorem GwOnly.gs {w w' : World} (h : GwOnly w w') : w'.gs = w.gs := by rw [h]
+theorem GwOnly.pending {w w' : World} (h : GwOnly w w') : w'.pending = w.pending := by rw [h]
+theorem GwOnly.led {w w' : World} (h : GwOnly w w') : Led w w' nil nil := Led.of_accts h.accts
+
+/-- a payment of nothing changes nothing at all -/
+theorem pay_zero_eq (src dst : Bytes) (w w' : World) (h : World.pay w src dst 0 [] = some w') : w' = w := by
+  simp only [World.pay, World.subEgld] at h
+  have hb := pay_bal src dst 0 [] w w' (by simpa [World.pay, World.subEgld] using h)
+  have hl := led_pay_zero src dst w w' (by simpa [World.pay, World.subEgld] using h)
+  rw [hb]
+  have : w'.accts = w.accts := by
+    split at h
+    · rename_i w1 hs
+      split at hs
+      · cases hs
+        cases h
+        funext a
+        simp only [World.addEgld, upd]
+        by_cases h1 : a = dst
+        · subst h1
+          by_cases h2 : a = src
+          · subst h2; simp
+          · simp [h2]
+        · by_cases h2 : a = src
+          · subst h2; simp [h1]
+          · simp [h1, h2]
+      · cases hs
+    · cases h
+  rw [this]
+
+/-- a synchronous call to the gateway changes only the gateway -/
+theorem subcall_gateway_only (C : Crypto) (cx : ICtx) (gwAddr : Bytes) (f : String) (args : List Bytes)
+    (t t' : Tx) (rs : List Bytes) (hk : t.w.kind gwAddr = some .gateway)
+    (h : subcall C cx gwAddr f 0 [] args t = some (rs, t')) : GwOnly t.w t'.w := by
+  unfold subcall at h
+  cases hp : World.pay t.w cx.self gwAddr 0 [] with
+  | none => simp [hp] at h
+  | some w1 =>
+    simp only [hp] at h
+    have hw1 := pay_zero_eq _ _ _ _ hp
+    subst hw1
+    cases hc : World.callOther C t.w cx.self gwAddr f 0 [] args with
+    | none => simp [hc] at h
+    | some r =>
+      obtain ⟨w2, rs2, evs, pd⟩ := r
+      simp only [hc, Option.some.injEq, Prod.mk.injEq] at h
+      obtain ⟨_, rfl⟩ := h
+      unfold World.callOther at hc
+      rw [hk] at hc
+      simp only at hc
+      split at hc
+      · cases hc
+      · split at hc
+        · cases hc; rfl
+        · cases hc
+
+theorem gatewayValidate_only (C : Crypto) (cx : ICtx) (a b c d : Bytes) (t t1 : Tx) (r : Bool)
+    (hk : t.w.kind t.w.its.gateway = some .gateway)
+    (h : gatewayValidate C cx a b c d t = some (r, t1)) : GwOnly t.w t1.w := by
+  simp only [gatewayValidate, run_bind, run_getI] at h
+  cases hs : subcall C cx t.w.its.gateway "validateMessage" 0 [] [a, b, c, d] t with
+  | none => simp [hs] at h
+  | some x =>
+    obtain ⟨rs, tt⟩ := x
+    simp only [hs, run_pure, Option.some.injEq, Prod.mk.injEq] at h
+    obtain ⟨_, rfl⟩ := h
+    exact subcall_gateway_only _ _ _ _ _ _ _ _ hk hs
+
+theorem gatewayIsApproved_only (C : Crypto) (cx : ICtx) (a b c d : Bytes) (t t1 : Tx) (r : Bool)
+    (hk : t.w.kind t.w.its.gateway = some .gateway)
+    (h : gatewayIsApproved C cx a b c d t = some (r, t1)) : GwOnly t.w t1.w := by
+  simp only [gatewayIsApproved, run_bind, run_getI] at h
+  cases hs : subcall C cx t.w.its.gateway "isMessageApproved" 0 [] [a, b, c, cx.self, d] t with
+  | none => simp [hs] at h
+  | some x =>
+    obtain ⟨rs, tt⟩ := x
+    simp only [hs, run_pure, Option.some.injEq, Prod.mk.injEq] at h
+    obtain ⟨_, rfl⟩ := h
+    exact subcall_gateway_only _ _ _ _ _ _ _ _ hk hs
+
+end Axelar.ItsW
+
+namespace Axelar.ItsW
+open Axelar Codec Its World
+
+/-! ### gas payments and `call_contract` -/
+
+/-- a call to a gas-service endpoint other than `collectFees` / `refund` moves exactly the
+    attached payment from the service to the gas service; nothing leaves the gas service -/
+theorem subcall_gs_led (C : Crypto) (cx : ICtx) (gs : Bytes) (f : String) (tok : Its.Tok) (g : Nat)
+    (args : List Bytes) (t t' : Tx) (rs : List Bytes) (hk : t.w.kind gs = some .gasService)
+    (hf : f ≠ "collectFees" ∧ f ≠ "refund")
+    (h : subcall C cx gs f (payOf tok g).1 (payOf tok g).2 args t = some (rs, t')) :
+    Led t.w t'.w (pt cx.self tok g) (pt gs tok g) ∧ t'.w.kind = t.w.kind ∧ t'.w.its = t.w.its ∧
+      t'.w.tms = t.w.tms ∧ t'.w.gw = t.w.gw := by
+  have hits := subcall_keeps_its _ _ _ _ _ _ _ _ _ _ h
+  unfold subcall at h
+  cases hp : World.pay t.w cx.self gs (payOf tok g).1 (payOf tok g).2 with
+  | none => simp [hp] at h
+  | some w1 =>
+    simp only [hp] at h
+    have hl := led_pay_payOf _ _ _ _ _ _ hp
+    have hb := pay_bal _ _ _ _ _ _ hp
+    cases hc : World.callOther C w1 cx.self gs f (payOf tok g).1 (payOf tok g).2 args with
+    | none => simp [hc] at h
+    | some r =>
+      obtain ⟨w2, rs2, evs, pd⟩ := r
+      simp only [hc, Option.some.injEq, Prod.mk.injEq] at h
+      obtain ⟨_, rfl⟩ := h
+      unfold World.callOther at hc
+      rw [hb.kind, hk] at hc
+      simp only at hc
+      split at hc
+      · rename_i out hcall
+        have hs : out.sends = [] := by
+          cases hsl : out.sends with
+          | nil => rfl
+          | cons s l =>
+            have := (Props.C15.outflow_only_by_collector C _ _ _ _ out hcall (by rw [hsl]; simp)).1
+            rcases this with e | e
+            · exact absurd e hf.1
+            · exact absurd e hf.2
+        rw [hs] at hc
+        simp only [applySends, Option.some.injEq, Prod.mk.injEq] at hc
+        obtain ⟨rfl, _⟩ := hc
+        refine ⟨?_, ?_, hits, ?_, ?_⟩
+        · exact (hl.trans (Led.of_accts (w := w1) (w' := { w1 with gs := out.st }) rfl)).conv
+            (by intro x k; simp only [plus, nil]; omega)
+        · first | rfl | exact hb.kind
+        · first | exact hb.tms | rfl
+        · first | exact hb.gw | rfl
+      · cases hc
+
+/-- **`call_contract` forwards exactly the gas value**: `gasValue` of the gas token goes from
+    the service to the gas service (nothing when it is zero), the gateway call moves nothing -/
+theorem callContract_led (C : Crypto) (cx : ICtx) (dc da p : Bytes) (gasTok : Its.Tok) (g : Nat) (t t' : Tx)
+    (hkgs : t.w.kind t.w.its.gasService = some .gasService) (hkgw : t.w.kind t.w.its.gateway = some .gateway)
+    (h : ItsW.callContract C cx dc da p gasTok g t = some ((), t')) :
+    Led t.w t'.w (pt cx.self gasTok g) (pt t.w.its.gasService gasTok g) ∧ t'.w.tms = t.w.tms ∧
+      t'.w.kind = t.w.kind ∧ t'.w.its = t.w.its := by
+  simp only [ItsW.callContract, run_bind, run_require, run_getI] at h
+  by_cases hda : (!da.isEmpty) = true
+  · simp only [hda, if_true] at h
+    by_cases hg : g > 0
+    · simp only [hg, if_true] at h
+      -- the gas payment: one of the two endpoints, both with the payment `payOf gasTok g`
+      have hpay : ∃ f, (f ≠ "collectFees" ∧ f ≠ "refund") ∧ ∃ rs t1,
+          subcall C cx t.w.its.gasService f (payOf gasTok g).1 (payOf gasTok g).2 [cx.self, dc, da, p, cx.caller] t = some (rs, t1) ∧
+          (do let _ ← subcall C cx t.w.its.gateway "callContract" 0 [] [dc, da, p]) t1 = some ((), t') := by
+        cases gasTok with
+        | none =>
+          simp only [run_bind] at h
+          cases hs : subcall C cx t.w.its.gasService "payNativeGasForContractCall" g [] [cx.self, dc, da, p, cx.caller] t with
+          | none => simp [hs] at h
+          | some x =>
+            obtain ⟨rs, t1⟩ := x
+            simp only [hs, run_pure] at h
+            exact ⟨"payNativeGasForContractCall", ⟨by decide, by decide⟩, rs, t1, by simpa [payOf] using hs, by simpa using h⟩
+        | some tk =>
+          simp only [run_bind] at h
+          cases hs : subcall C cx t.w.its.gasService "payGasForContractCall" 0 [(tk, 0, g)] [cx.self, dc, da, p, cx.caller] t with
+          | none => simp [hs] at h
+          | some x =>
+            obtain ⟨rs, t1⟩ := x
+            simp only [hs, run_pure] at h
+            exact ⟨"payGasForContractCall", ⟨by decide, by decide⟩, rs, t1, by simpa [payOf] using hs, by simpa using h⟩
+      obtain ⟨f, hf, rs, t1, hs, h2⟩ := hpay
+      obtain ⟨hl, hkind, hits, htms, _⟩ := subcall_gs_led C cx _ f gasTok g _ t t1 rs hkgs hf hs
+      simp only [run_bind] at h2
+      cases hs2 : subcall C cx t.w.its.gateway "callContract" 0 [] [dc, da, p] t1 with
+      | none => simp [hs2] at h2
+      | some y =>
+        obtain ⟨rs2, t2⟩ := y
+        simp only [hs2, run_pure, Option.some.injEq, Prod.mk.injEq, true_and] at h2
+        subst h2
+        have hk1 : t1.w.kind t.w.its.gateway = some .gateway := by rw [hkind]; exact hkgw
+        have ho := subcall_gateway_only C cx _ _ _ t1 _ rs2 hk1 hs2
+        refine ⟨(hl.trans ho.led).conv (by intro x k; simp only [plus, nil]; omega), ?_, ?_, ?_⟩
+        · rw [ho.tms, htms]
+        · rw [ho.kind, hkind]
+        · rw [ho.its, hits]
+    · have hg0 : g = 0 := by omega
+      subst hg0
+      simp only [Nat.lt_irrefl, gt_iff_lt, if_false, run_bind, run_pure] at h
+      cases hs2 : subcall C cx t.w.its.gateway "callContract" 0 [] [dc, da, p] t with
+      | none => simp [hs2] at h
+      | some y =>
+        obtain ⟨rs2, t2⟩ := y
+        simp only [hs2, run_pure, Option.some.injEq, Prod.mk.injEq, true_and] at h
+        subst h
+        have ho := subcall_gateway_only C cx _ _ _ t _ rs2 hkgw hs2
+        refine ⟨ho.led.conv (by intro x k; simp [pt, nil]), ho.tms, ho.kind, ho.its⟩
+  · simp [hda] at h
 
 end Axelar.ItsW
